@@ -34,7 +34,7 @@ class Contract:
     """
 
     def __init__(self, name, props, funcs, body, cases=None, loops=None, calls=None, assumed=None,
-                 natives=None, bounded=None, tier='quick', trusted=None, explorer=None, doc=''):
+                 natives=None, bounded=None, tier='quick', trusted=None, explorer=None, doc='', fp_exact=False):
         self.name = name
         self.props = list(props)
         self.funcs = list(funcs)
@@ -49,6 +49,7 @@ class Contract:
         self.trusted = trusted or []
         self.explorer = explorer or {}
         self.doc = doc
+        self.fp_exact = fp_exact      # float + - * / as IEEE operations (bit-blasted) instead of uninterpreted functions
 
 
 def resolve(spec):
@@ -88,6 +89,8 @@ def _jsonable(v):
 def run_case(contract, case, known_classes_disabled=False):
     """symbolic exploration of one (contract, case); returns a JSON-able summary"""
     t0 = time.time()
+    from . import sym as _sym
+    _sym._FP_EXACT = bool(contract.fp_exact) or os.environ.get('PYVC_FP_EXACT') == '1'
     exo = dict(contract.explorer)
     if os.environ.get('VERIF_TIER') == 'thorough':
         exo.setdefault('prove_timeout_ms', 120000)
